@@ -1294,3 +1294,336 @@ Print Assumptions in_region_words_fit.
 Example ex_cut_layout_region : in_region (f_styles ex_plainf) 18 ex_cut_layout = false /\ words_fit_page (f_styles ex_plainf) 18 ex_cut_layout = false /\
   in_region (f_styles ex_plainf) 38 ex_cut_layout = true.
 Proof. vm_compute. repeat split; reflexivity. Qed.
+
+(* ================= THE RENDERED TEXT: what the bytes of a page contain ================= *)
+(* command_page_complete, application_page_complete and hidden_never_listed above are statements about the LAYOUT - the elements
+   handed to BlockLayout.  Here the text written (the string render_page returns), through the plain formatter and - for the
+   visible text, SGR sequences removed - through the ANSI one.  Proofs/HelpBytesLemmas.v, HelpBytesRegionLemmas.v,
+   HelpBytesPageLemmas.v.
+   on_line p s: p is a piece (infix) of one line of s.  Names are "plain": no "<", no backslash (clikit validates option,
+   argument and command names against [a-zA-Z0-9-]+ style patterns; the model's configuration does not, hence the hypothesis). *)
+From Clikit Require Import Proofs.LiteralLemmas Proofs.HelpBytesLemmas Proofs.HelpBytesRegionLemmas Proofs.HelpBytesPageLemmas.
+From Clikit Require Proofs.TraceEscLemmas.
+
+(* What the undecorated formatter KEEPS (colorize_only_deletes above: what it deletes).  Behind a text a that leaves no tag
+   candidate pending (it ends with ">", a blank, a line break ..., or holds no "<" at all), a text n without "<" and backslash
+   comes out as it is, between the rendering of what is before it and the rendering of what is behind it: for EVERY style table
+   and every a, b. *)
+Theorem undecorated_keeps_plain_text : forall sty a0 a n b, l_cand (scan a) = CText -> n <> [] -> no_lt n -> no_bsl n ->
+  plain_of sty a0 (a ++ n ++ b) = plain_of sty a0 a ++ n ++ plain_of sty false b.
+Proof. exact plain_of_kept. Qed.
+Print Assumptions undecorated_keeps_plain_text.
+(* The text of a page the plain formatter renders is the texts written for its elements, one behind the other; the text written
+   for an element is the undecorated rendering of what elem_raw builds with the label's visible width (elem_text_for). *)
+Theorem page_text_is_its_elements : forall W f l s, f_kind f = FPlain -> render_page W f l = Ok s ->
+  exists off ps, Forall2 (fun x p => exists raw, elem_text_for (f_styles f) W off x = Ok raw /\ p = plain_of (f_styles f) false raw) l ps
+                 /\ s = concat ps.
+Proof. exact page_plain_is_elements. Qed.
+Print Assumptions page_text_is_its_elements.
+(* A LABEL is never wrapped: a piece n of a label (behind a part p that leaves no tag candidate pending) is a piece of the page,
+   and of ONE LINE of it when it holds no line break - whatever the width, the texts and the other elements.  (ends_visible: the
+   label does not end with white space, as none of the help model's does.) *)
+Theorem label_piece_on_a_line : forall W f l s ind label text padding aligned p n q,
+  f_kind f = FPlain -> render_page W f l = Ok s -> In (ind, ELab label text padding aligned) l ->
+  ends_visible label -> label = p ++ n ++ q -> l_cand (scan p) = CText -> n <> [] -> plain n ->
+  infix_of n s /\ (no_nl n -> on_line n s).
+Proof. intros W f l s ind label text padding aligned p n q Hk H. exact (label_piece_written _ W l s ind label text padding aligned p n q (page_text_of W f l s Hk H)). Qed.
+Print Assumptions label_piece_on_a_line.
+
+(* THE COMMAND PAGE.  Whenever the plain formatter renders it - at ANY width, for EVERY configuration and style table:
+   - every argument of the chain (own and inherited): "name>" on a line, and "<name>" when c1 is a style of the formatter (the
+     "<" is written by the element <c1><</c1>; without the style c1 the tags themselves are printed and stand in between);
+   - every option (own: OPTIONS, inherited: GLOBAL OPTIONS): "--long" on a line and, when it has a short name, "-s" on a line -
+     the preferred and the alternative name;
+   - every enabled, named, non-hidden sub-command: its name on a line (of USAGE: the synopsis spells it in its label), its
+     arguments and its options as above. *)
+Theorem command_page_bytes_complete : forall W f sty app_name ch aliases help subs s,
+  f_kind f = FPlain -> render_page W f (command_page sty app_name ch aliases help subs) = Ok s ->
+  (forall a, In a (chain_args ch) -> plain (a_name (h_a a)) /\ no_nl (a_name (h_a a)) ->
+     on_line (a_name (h_a a) ++ [GT]) s /\ (resolvable (f_styles f) NM_C1 -> on_line (LT :: a_name (h_a a) ++ [GT]) s))
+  /\ (forall h, In h (own_opts ch) \/ In h (base_opts ch) ->
+        (plain (o_long (h_o h)) -> no_nl (o_long (h_o h)) -> on_line (DASH :: DASH :: o_long (h_o h)) s)
+        /\ (forall sh, o_short (h_o h) = Some sh -> plain sh -> no_nl sh -> on_line (DASH :: sh) s))
+  /\ (forall sb, In sb subs -> sb_enabled sb = true -> sb_anonymous sb = false -> sb_hidden sb = false ->
+        (name_ok (sb_name sb) -> on_line (sb_name sb) s)
+        /\ (forall a, In a (sb_args sb) -> arg_name_ok a -> arg_written (f_styles f) a s)
+        /\ (forall h, In h (sb_opts sb) -> opt_written h s)).
+Proof. exact command_page_bytes_complete_lemma. Qed.
+Print Assumptions command_page_bytes_complete.
+(* In the region the check asks the model about (in_region: room for the labels, no word that holds markup has to be broken)
+   the page DOES render: *)
+Theorem command_page_bytes_complete_in_the_region : forall W f sty app_name ch aliases help subs,
+  f_kind f = FPlain -> in_region (f_styles f) W (command_page sty app_name ch aliases help subs) = true ->
+  exists s, render_page W f (command_page sty app_name ch aliases help subs) = Ok s /\
+  (forall a, In a (chain_args ch) -> arg_name_ok a -> arg_written (f_styles f) a s)
+  /\ (forall h, In h (own_opts ch) \/ In h (base_opts ch) -> opt_written h s)
+  /\ (forall sb, In sb subs -> sb_enabled sb = true -> sb_anonymous sb = false -> sb_hidden sb = false ->
+        (name_ok (sb_name sb) -> on_line (sb_name sb) s)
+        /\ (forall a, In a (sb_args sb) -> arg_name_ok a -> arg_written (f_styles f) a s)
+        /\ (forall h, In h (sb_opts sb) -> opt_written h s)).
+Proof. exact command_page_bytes_complete_in_region. Qed.
+Print Assumptions command_page_bytes_complete_in_the_region.
+(* The COMMANDS section is a piece s2 of the page, the text written for the section's elements; it holds, for every enabled,
+   named, non-hidden sub-command, its arguments and options as above and its NAME - a paragraph <u>name</u>, which textwrap may
+   break: (a) in general the name with white space (a line break and the indentation) put in where it was broken: spaced_in;
+   (b) on one line when the name holds no white space and the paragraph - its tags included: textwrap wraps the raw text - fits
+   the line.  (b) is the strongest form that is true: ex_hyphenated_name_broken below. *)
+Theorem commands_section_bytes_complete : forall W f sty app_name ch aliases help subs s,
+  f_kind f = FPlain -> render_page W f (command_page sty app_name ch aliases help subs) = Ok s ->
+  exists s1 s2 s3, s = s1 ++ s2 ++ s3 /\ text_of (f_styles f) W (commands_section subs) s2 /\
+    forall sb, In sb subs -> sb_enabled sb = true -> sb_anonymous sb = false -> sb_hidden sb = false ->
+      ((plain (sb_name sb) -> spaced_in (sb_name sb) s2)
+       /\ (name_ok (sb_name sb) -> spacefree (sb_name sb) -> (zlen (u_tag (sb_name sb)) <= W - 1 - 2)%Z -> on_line (sb_name sb) s2))
+      /\ (forall a, In a (sb_args sb) -> arg_name_ok a -> arg_written (f_styles f) a s2)
+      /\ (forall h, In h (sb_opts sb) -> opt_written h s2).
+Proof. exact commands_section_bytes_complete_lemma. Qed.
+Print Assumptions commands_section_bytes_complete.
+
+(* THE APPLICATION PAGE: every global option under both names, the two built-in arguments, and every enabled, named, non-hidden
+   command's name on a line (the label <c1>name</c1> of AVAILABLE COMMANDS). *)
+Theorem application_page_bytes_complete : forall W f sty app_name display version gopts cmds help s,
+  f_kind f = FPlain -> render_page W f (application_page sty app_name display version gopts cmds help) = Ok s ->
+  (forall h, In h gopts -> opt_written h s)
+  /\ arg_written (f_styles f) the_command_arg s /\ arg_written (f_styles f) the_arg_arg s
+  /\ (forall c, In c cmds -> ac_enabled c && negb (ac_anonymous c) && negb (ac_hidden c) = true ->
+        name_ok (ac_name c) -> on_line (ac_name c) s).
+Proof. exact application_page_bytes_complete_lemma. Qed.
+Print Assumptions application_page_bytes_complete.
+Theorem application_page_bytes_complete_in_the_region : forall W f sty app_name display version gopts cmds help,
+  f_kind f = FPlain -> in_region (f_styles f) W (application_page sty app_name display version gopts cmds help) = true ->
+  exists s, render_page W f (application_page sty app_name display version gopts cmds help) = Ok s /\
+  (forall h, In h gopts -> opt_written h s)
+  /\ arg_written (f_styles f) the_command_arg s /\ arg_written (f_styles f) the_arg_arg s
+  /\ (forall c, In c cmds -> ac_enabled c && negb (ac_anonymous c) && negb (ac_hidden c) = true ->
+        name_ok (ac_name c) -> on_line (ac_name c) s).
+Proof. exact application_page_bytes_complete_in_region. Qed.
+Print Assumptions application_page_bytes_complete_in_the_region.
+(* The ANSI formatter: the same of the visible text (strip_sgr), for pages without ESC and backslash (good_layout: the
+   hypothesis of ansi_page_visible). *)
+Theorem command_page_bytes_complete_ansi_visible : forall W f sty app_name ch aliases help subs s,
+  is_ansi f -> good_layout (command_page sty app_name ch aliases help subs) ->
+  render_page W f (command_page sty app_name ch aliases help subs) = Ok s ->
+  (forall a, In a (chain_args ch) -> arg_name_ok a -> arg_written (f_styles f) a (strip_sgr s))
+  /\ (forall h, In h (own_opts ch) \/ In h (base_opts ch) -> opt_written h (strip_sgr s))
+  /\ (forall sb, In sb subs -> sb_enabled sb = true -> sb_anonymous sb = false -> sb_hidden sb = false ->
+        (name_ok (sb_name sb) -> on_line (sb_name sb) (strip_sgr s))
+        /\ (forall a, In a (sb_args sb) -> arg_name_ok a -> arg_written (f_styles f) a (strip_sgr s))
+        /\ (forall h, In h (sb_opts sb) -> opt_written h (strip_sgr s))).
+Proof. exact command_page_bytes_complete_ansi_lemma. Qed.
+Print Assumptions command_page_bytes_complete_ansi_visible.
+Theorem application_page_bytes_complete_ansi_visible : forall W f sty app_name display version gopts cmds help s,
+  is_ansi f -> good_layout (application_page sty app_name display version gopts cmds help) ->
+  render_page W f (application_page sty app_name display version gopts cmds help) = Ok s ->
+  (forall h, In h gopts -> opt_written h (strip_sgr s))
+  /\ arg_written (f_styles f) the_command_arg (strip_sgr s) /\ arg_written (f_styles f) the_arg_arg (strip_sgr s)
+  /\ (forall c, In c cmds -> ac_enabled c && negb (ac_anonymous c) && negb (ac_hidden c) = true ->
+        name_ok (ac_name c) -> on_line (ac_name c) (strip_sgr s)).
+Proof. exact application_page_bytes_complete_ansi_lemma. Qed.
+Print Assumptions application_page_bytes_complete_ansi_visible.
+(* the formatters clikit builds (a style set that contains DefaultStyleSet's) know the style c1: "<name>" is printed *)
+Theorem clikit_formatters_know_c1 : forall f, TraceEscLemmas.clikit_formatter f -> resolvable (f_styles f) NM_C1.
+Proof. exact clikit_formatter_c1. Qed.
+Print Assumptions clikit_formatters_know_c1.
+
+(* ================= nothing else: the page, white space aside, IS the visible texts of its elements ================= *)
+(* vis sty x: the undecorated rendering of x without its white space; elem_vis sty e = vis (label of e) ++ vis (text of e, as
+   textwrap sees it).  In the region (layout_ok: every text that holds a "<" has only words that fit, no hyphen in a tag name)
+   wrapping breaks lines at blanks - dropped or replaced by the line break and the indentation - or next to a hyphen, where the
+   undecorated rendering SPLITS (safe_cut: the scanner is not inside a tag the next character continues): *)
+Theorem undecorated_rendering_splits_at_a_safe_cut : forall sty X y0 Y, safe_cut (scan X) y0 = true ->
+  plain_of sty false (X ++ y0 :: Y) = plain_of sty false X ++ plain_of sty false (y0 :: Y).
+Proof. exact plain_of_cut. Qed.
+Print Assumptions undecorated_rendering_splits_at_a_safe_cut.
+Theorem wrap_keeps_the_visible_characters : forall sty t w ls, wrap t w = Ok ls -> words_fit w t -> no_hyphen_in_tags (munge t) ->
+  concat (map (vis sty) ls) = vis sty (munge t).
+Proof. intros sty t w ls Hw Hf Hn. apply (wrap_keeps_visible sty t w ls Hw Hf). now apply nh_cuts. Qed.
+Print Assumptions wrap_keeps_the_visible_characters.
+(* one element: what is written for it, white space aside, is its visible characters - nothing lost, nothing added *)
+Theorem element_bytes_are_its_visible_characters : forall sty W off ind e raw, elem_ok sty W off ind e ->
+  elem_raw W off ind (vis_of sty (elem_label e)) e = Ok raw -> vis sty raw = elem_vis sty e.
+Proof. exact elem_written_visible. Qed.
+Print Assumptions element_bytes_are_its_visible_characters.
+(* the page *)
+Theorem page_bytes_are_the_visible_texts_of_its_elements : forall W f l s,
+  f_kind f = FPlain -> layout_ok (f_styles f) W l -> render_page W f l = Ok s ->
+  filter nsp s = concat (map (fun x => elem_vis (f_styles f) (snd x)) l).
+Proof. exact page_bytes_are_the_visible_texts. Qed.
+Print Assumptions page_bytes_are_the_visible_texts_of_its_elements.
+Theorem page_bytes_are_the_visible_texts_ansi_visible : forall W f l s, is_ansi f -> good_layout l -> layout_ok (f_styles f) W l ->
+  render_page W f l = Ok s -> filter nsp (strip_sgr s) = concat (map (fun x => elem_vis (f_styles f) (snd x)) l).
+Proof. exact page_bytes_are_the_visible_texts_ansi. Qed.
+Print Assumptions page_bytes_are_the_visible_texts_ansi_visible.
+
+(* ================= never a hidden or disabled command ================= *)
+(* The clause cannot be "the name of a hidden command occurs nowhere on the page": a hidden DEFAULT sub-command is printed under
+   USAGE (usage_entries_origin; ex_hidden_default_bytes below), and the name may be a word of a description.  What is true - for
+   EVERY configuration in the region: the COMMANDS section is a piece s2 of the page; it is complete (section_complete: as in
+   commands_section_bytes_complete); and every WORD n (no white space in it) found in s2 is a word of "COMMANDS" or of the visible
+   characters of an element of the block of an ENABLED, NAMED, NON-HIDDEN sub-command (commands_word).  A hidden or disabled
+   command contributes nothing: its name is on no line of the section unless a visible command's own texts spell it
+   (commands_word is decidable: commands_word_is_decided; ex_secret_not_in_commands). *)
+Theorem hidden_never_printed : forall W f sty app_name ch aliases help subs,
+  f_kind f = FPlain -> in_region (f_styles f) W (command_page sty app_name ch aliases help subs) = true ->
+  exists s s1 s2 s3, render_page W f (command_page sty app_name ch aliases help subs) = Ok s /\
+    s = s1 ++ s2 ++ s3 /\ text_of (f_styles f) W (commands_section subs) s2 /\ section_complete (f_styles f) W subs s2 /\
+    forall n, n <> [] -> spacefree n -> infix_of n s2 ->
+      infix_of n (vis (f_styles f) H_COMMANDS)
+      \/ exists sv x, In sv subs /\ visible sv = true /\ In x (sub_block sv) /\ infix_of n (elem_vis (f_styles f) (snd x)).
+Proof. exact hidden_never_printed_lemma. Qed.
+Print Assumptions hidden_never_printed.
+(* AVAILABLE COMMANDS of the application page: a word of the section is a word of the heading or of the line (name,
+   description) of an enabled, named, non-hidden command *)
+Theorem hidden_never_printed_app : forall W f sty app_name display version gopts cmds help,
+  f_kind f = FPlain -> in_region (f_styles f) W (application_page sty app_name display version gopts cmds help) = true ->
+  exists s s1 s2 s3, render_page W f (application_page sty app_name display version gopts cmds help) = Ok s /\
+    s = s1 ++ s2 ++ s3 /\ text_of (f_styles f) W (available_section cmds) s2 /\
+    forall n, n <> [] -> spacefree n -> infix_of n s2 ->
+      infix_of n (vis (f_styles f) H_AVAILABLE)
+      \/ exists c, In c cmds /\ cmd_visible c = true /\ infix_of n (elem_vis (f_styles f) (snd (cmd_line c))).
+Proof. exact hidden_never_printed_app_lemma. Qed.
+Print Assumptions hidden_never_printed_app.
+(* the visible text of the ANSI page *)
+Theorem hidden_never_printed_ansi_visible : forall W f sty app_name ch aliases help subs s,
+  is_ansi f -> good_layout (command_page sty app_name ch aliases help subs) ->
+  in_region (f_styles f) W (command_page sty app_name ch aliases help subs) = true ->
+  render_page W f (command_page sty app_name ch aliases help subs) = Ok s ->
+  exists s1 s2 s3, strip_sgr s = s1 ++ s2 ++ s3 /\ text_of (f_styles f) W (commands_section subs) s2 /\
+    section_complete (f_styles f) W subs s2 /\
+    forall n, n <> [] -> spacefree n -> infix_of n s2 -> commands_word (f_styles f) subs n.
+Proof. exact hidden_never_printed_ansi_lemma. Qed.
+Print Assumptions hidden_never_printed_ansi_visible.
+Theorem commands_word_is_decided : forall sty subs n, commands_word sty subs n -> commands_wordb sty subs n = true.
+Proof. exact commands_word_decided. Qed.
+Print Assumptions commands_word_is_decided.
+Theorem infixb_decides : forall p s, infixb p s = true <-> infix_of p s.
+Proof. exact infixb_spec. Qed.
+Print Assumptions infixb_decides.
+
+(* ---- examples ---- *)
+Definition on_lineb (p s : str) : bool := existsb (infixb p) (split_on 10%N s).
+Definition T_FORCE : str := [45;45]%N ++ FORCE.      (* --force *)
+Definition T_LEVEL : str := [45;45]%N ++ LEVEL.      (* --level *)
+Definition T_FILE : str := [60]%N ++ FILE ++ [62]%N.  (* <file> *)
+(* the label of --force through the plain formatter of the examples: the tags are gone, the names are there *)
+Example ex_label_kept : plain_of (f_styles ex_plainf) false (elem_label (render_option ex_force)) = T_FORCE ++ [32;40;45;102;41]%N.   (* --force (-f) *)
+Proof. vm_compute. reflexivity. Qed.
+(* the command page of the examples above (ex_page_for: the options --force / -f and -l / --level, the argument <file>, the
+   sub-commands run, add (visible), secret (hidden), old (disabled)) at 34 columns, in the region: every name is on a line; "secret"
+   and "old" are nowhere on the page *)
+Example ex_bytes_computed :
+  in_region (f_styles ex_plainf) 34 (ex_page_for ex_plainf) = true /\
+  match render_page 34 ex_plainf (ex_page_for ex_plainf) with
+  | Ok s => on_lineb T_FORCE s && on_lineb [45;102]%N s && on_lineb T_LEVEL s && on_lineb [45;108]%N s && on_lineb T_FILE s
+            && on_lineb RUN s && on_lineb ADD s && negb (infixb SECRET s) && negb (infixb OLD s)
+  | Err _ => false end = true.
+Proof. vm_compute. split; reflexivity. Qed.
+(* the hypotheses of command_page_bytes_complete_in_the_region are met by it, and the theorem gives the same *)
+Example ex_bytes_applied : forall W, W = 34%Z \/ W = 80%Z ->
+  exists s, render_page W ex_plainf (ex_page_for ex_plainf) = Ok s /\ on_line T_FORCE s /\ on_line [45;102]%N s /\ on_line T_FILE s /\ on_line RUN s.
+Proof.
+  intros W HW.
+  destruct (command_page_bytes_complete_in_the_region W ex_plainf (f_styles ex_plainf) (Some APP) ex_chain [SRV] (Some DESC_FILE) ex_subs eq_refl)
+    as (s & Hs & Ha & Ho & Hsub); [destruct HW as [-> | ->]; vm_compute; reflexivity|].
+  exists s. split; [exact Hs|].
+  destruct (Ho ex_force (or_introl (or_introl eq_refl))) as [Hl Hsh].
+  destruct (Ha ex_file (or_introl eq_refl)) as [_ Hlt]; [split; [ex_plain|repeat constructor; nl_char]|].
+  destruct (Hsub (ex_sub RUN false true) (or_introl eq_refl) eq_refl eq_refl eq_refl) as (Hn & _).
+  split; [apply Hl; [ex_plain|repeat constructor; nl_char]|].
+  split; [apply (Hsh [102]%N eq_refl); [ex_plain|repeat constructor; nl_char]|].
+  split; [apply Hlt; eexists; vm_compute; reflexivity|].
+  apply Hn. split; [discriminate|]. split; [ex_plain|repeat constructor; nl_char].
+Qed.
+(* (b) of commands_section_bytes_complete cannot be had without "the paragraph fits": the application "a" with the default
+   sub-command "aaaa-bbbb" at 18 columns is in the region (the label of USAGE - a [aaaa-bbbb] - needs 18 columns, every word of
+   <u>aaaa-bbbb</u> - textwrap breaks behind the hyphen - fits the 15 columns of the paragraph); the name is unbroken under USAGE
+   and broken under COMMANDS.  The model's command page has no name of its own here (chain_names = []: a clikit command always
+   has one, and its USAGE label is then wider than the paragraph); the same elements on the Python code (BlockLayout with
+   Paragraph <b>USAGE</b>, LabeledParagraph <u>a</u> [<u>aaaa-bbbb</u>], EmptyLine, Paragraph <b>COMMANDS</b>, Paragraph
+   <u>aaaa-bbbb</u> at indentation 2, BufferedIO of width 18, PlainFormatter) give the same text; at width 19 the name is unbroken. *)
+Definition HYNAME : str := [97;97;97;97;45;98;98;98;98]%N.   (* aaaa-bbbb *)
+Definition ex_hy_page : layout :=
+  command_page (f_styles ex_plainf) (Some [97]%N) [{| lv_name := None; lv_opts := []; lv_args := [] |}] [] None
+    [{| sb_name := HYNAME; sb_default := true; sb_anonymous := false; sb_enabled := true; sb_hidden := false;
+        sb_desc := None; sb_help := None; sb_opts := []; sb_args := [] |}].
+Example ex_hyphenated_name_broken :
+  in_region (f_styles ex_plainf) 18 ex_hy_page = true /\ in_region (f_styles ex_plainf) 17 ex_hy_page = false /\
+  render_page 18 ex_plainf ex_hy_page =
+  Ok ([85;83;65;71;69;10]%N ++                                         (* USAGE *)
+      [32;32;97;32;91]%N ++ HYNAME ++ [93;10]%N ++                       (*   a [aaaa-bbbb] *)
+      [10]%N ++ [67;79;77;77;65;78;68;83;10]%N ++                        (* COMMANDS *)
+      [32;32;97;97;97;97;45;10]%N ++ [32;32;98;98;98;98;10]%N ++ [10]%N).  (*   aaaa- / bbbb *)
+Proof. vm_compute. repeat split; reflexivity. Qed.
+(* a hidden DEFAULT sub-command (ex_hidden_default: "secret") is printed under USAGE and not under COMMANDS; hidden_never_printed
+   applied: a word of the section is a word of "COMMANDS" *)
+Definition ex_hd_page : layout := command_page (f_styles ex_plainf) (Some APP) ex_chain [] None [ex_hidden_default].
+Example ex_hidden_default_bytes :
+  in_region (f_styles ex_plainf) 40 ex_hd_page = true /\
+  match render_page 40 ex_plainf ex_hd_page with
+  | Ok s => on_lineb SECRET s && infixb ([67;79;77;77;65;78;68;83;10;79;80;84;73;79;78;83;10]%N) s   (* COMMANDS, an empty section: OPTIONS is the next line *)
+  | Err _ => false end = true /\
+  commands_wordb (f_styles ex_plainf) [ex_hidden_default] SECRET = false.
+Proof. vm_compute. repeat split; reflexivity. Qed.
+(* hidden_never_printed applied to the command page of the examples: "secret" (hidden) and "old" (disabled) are no words of the
+   visible sub-commands' blocks, hence on no line of the COMMANDS section *)
+Example ex_secret_not_in_commands : forall W, W = 34%Z \/ W = 80%Z ->
+  exists s s1 s2 s3, render_page W ex_plainf (ex_page_for ex_plainf) = Ok s /\ s = s1 ++ s2 ++ s3 /\
+    text_of (f_styles ex_plainf) W (commands_section ex_subs) s2 /\ ~ infix_of SECRET s2 /\ ~ infix_of OLD s2 /\ infix_of RUN s2.
+Proof.
+  intros W HW.
+  destruct (hidden_never_printed W ex_plainf (f_styles ex_plainf) (Some APP) ex_chain [SRV] (Some DESC_FILE) ex_subs eq_refl)
+    as (s & s1 & s2 & s3 & Hs & E & Ht & Hc & Hw); [destruct HW as [-> | ->]; vm_compute; reflexivity|].
+  exists s, s1, s2, s3. split; [exact Hs|]. split; [exact E|]. split; [exact Ht|].
+  assert (forall n, n <> [] -> spacefree n -> commands_wordb (f_styles ex_plainf) ex_subs n = false -> ~ infix_of n s2) as Hno.
+  { intros n Hne Hsf Hb Hi. specialize (Hw n Hne Hsf Hi). apply (commands_word_is_decided (f_styles ex_plainf) ex_subs n) in Hw. congruence. }
+  split; [apply Hno; [discriminate|repeat constructor|vm_compute; reflexivity]|].
+  split; [apply Hno; [discriminate|repeat constructor|vm_compute; reflexivity]|].
+  destruct (Hc (ex_sub RUN false true) (or_introl eq_refl) eq_refl eq_refl eq_refl) as ((Hsp & Hl) & _).
+  apply on_line_infix, Hl.
+  - split; [discriminate|]. split; [ex_plain|repeat constructor; nl_char].
+  - repeat constructor.
+  - destruct HW as [-> | ->]; vm_compute; discriminate.
+Qed.
+(* the application page of the examples: server and add are listed, secret (hidden) and old (disabled) are not words of AVAILABLE COMMANDS *)
+Example ex_app_bytes_computed :
+  in_region (f_styles ex_plainf) 29 (ex_app_page_for ex_plainf) = true /\
+  match render_page 29 ex_plainf (ex_app_page_for ex_plainf) with
+  | Ok s => on_lineb SERVER s && on_lineb ADD s && on_lineb T_FORCE s && on_lineb ([60]%N ++ COMMAND ++ [62]%N) s
+            && negb (infixb SECRET s) && negb (infixb OLD s)
+  | Err _ => false end = true /\
+  available_wordb (f_styles ex_plainf) ex_cmds SECRET = false /\ available_wordb (f_styles ex_plainf) ex_cmds OLD = false /\
+  available_wordb (f_styles ex_plainf) ex_cmds SERVER = true.
+Proof. vm_compute. repeat split; reflexivity. Qed.
+(* more instances: the hypotheses of undecorated_keeps_plain_text (behind "<c1>" no candidate is pending; "--force" is plain) *)
+Example ex_kept_applied : forall sty b, plain_of sty false (C1 ++ T_FORCE ++ b) = plain_of sty false C1 ++ T_FORCE ++ plain_of sty false b.
+Proof. intros sty b. apply undecorated_keeps_plain_text; [reflexivity|discriminate|repeat constructor; discriminate|repeat constructor; discriminate]. Qed.
+(* application_page_bytes_complete_in_the_region applied to the application page of the examples at 29 and 80 columns *)
+Example ex_app_bytes_applied : forall W, W = 29%Z \/ W = 80%Z ->
+  exists s, render_page W ex_plainf (ex_app_page_for ex_plainf) = Ok s /\ on_line SERVER s /\ on_line T_FORCE s /\ on_line ([60]%N ++ COMMAND ++ [62]%N) s.
+Proof.
+  intros W HW.
+  destruct (application_page_bytes_complete_in_the_region W ex_plainf (f_styles ex_plainf) (Some APP) (Some APP) (Some ([49;46;50]%N)) [ex_force; ex_level] ex_cmds (Some DESC_FILE) eq_refl)
+    as (s & Hs & Ho & [_ Hc] & _ & Hn); [destruct HW as [-> | ->]; vm_compute; reflexivity|].
+  exists s. split; [exact Hs|]. split; [|split].
+  - apply (Hn _ (or_introl eq_refl) eq_refl). split; [discriminate|]. split; [ex_plain|repeat constructor; nl_char].
+  - destruct (Ho ex_force (or_introl eq_refl)) as [Hl _]. apply Hl; [ex_plain|repeat constructor; nl_char].
+  - apply Hc. eexists. vm_compute. reflexivity.
+Qed.
+(* the ANSI formatter on the page with tagged descriptions (ex_tpage: no ESC, no backslash): whenever it renders, the visible text
+   has the names *)
+Example ex_ansi_bytes_applied : forall W s, render_page W ex_ansif ex_tpage = Ok s ->
+  on_line T_FORCE (strip_sgr s) /\ on_line [45;102]%N (strip_sgr s) /\ on_line RUN (strip_sgr s).
+Proof.
+  intros W s Hs.
+  destruct (command_page_bytes_complete_ansi_visible W ex_ansif (f_styles ex_plainf) (Some APP) ex_chain_t [SRV] (Some DESC_FILE_T) [ex_sub_t RUN; ex_sub_t ADD] s I ex_ansi_good Hs)
+    as (_ & Ho & Hsub).
+  destruct (Ho ex_force_t (or_introl (or_introl eq_refl))) as [Hl Hsh].
+  destruct (Hsub (ex_sub_t RUN) (or_introl eq_refl) eq_refl eq_refl eq_refl) as (Hn & _).
+  split; [apply Hl; [ex_plain|repeat constructor; nl_char]|]. split; [apply (Hsh [102]%N eq_refl); [ex_plain|repeat constructor; nl_char]|].
+  apply Hn. split; [discriminate|]. split; [ex_plain|repeat constructor; nl_char].
+Qed.
+(* page_bytes_are_the_visible_texts_of_its_elements, both sides computed, for the command page of the examples at 34 columns *)
+Example ex_page_is_its_visible_texts :
+  match render_page 34 ex_plainf (ex_page_for ex_plainf) with
+  | Ok s => str_eqb (filter nsp s) (concat (map (fun x => elem_vis (f_styles ex_plainf) (snd x)) (ex_page_for ex_plainf)))
+  | Err _ => false end = true.
+Proof. vm_compute. reflexivity. Qed.
